@@ -20,6 +20,7 @@ import (
 	"time"
 
 	"go.etcd.io/etcd/api/v3/mvccpb"
+	clientv3 "go.etcd.io/etcd/client/v3"
 
 	"github.com/megaease/easegress/pkg/logger"
 	"github.com/megaease/easegress/pkg/zzverif/mc"
@@ -109,6 +110,7 @@ func TestVerifC19(t *testing.T) {
 			if outage {
 				restartBefore = n - 1 + c.Choose(2, "outage-before-or-after-the-last-op")
 			}
+			cutOff := outage && c.Choose(2, "fault-kind:server-down|client-cut-off") == 1 // see restart() below
 			if !c.Mine() {
 				return
 			}
@@ -201,7 +203,28 @@ func TestVerifC19(t *testing.T) {
 				go drain()
 			}
 			time.Sleep(20 * time.Millisecond) // the subscription is established (initial pull done)
+			// cutOff: the member's etcd client loses its server for a while (the client is swapped for one that points
+			// to a dead endpoint, the watch of the syncer stays attached to the old one): every periodic pull in the
+			// window fails after the request timeout.  Unlike a server stop, which may or may not cancel the watch
+			// first (then the syncer sits in re-watching and does not pull), this makes pulls FAIL every time.
 			restart := func() {
+				if cutOff {
+					dead, err := clientv3.New(clientv3.Config{Endpoints: []string{"127.0.0.1:1"}, DialTimeout: time.Second})
+					if err != nil {
+						c.Failf("harness:dead-client", "%v", err)
+					}
+					cls.clientMutex.Lock()
+					real := cls.client
+					cls.client = dead
+					cls.clientMutex.Unlock()
+					time.Sleep(cls.requestTimeout + 5*c19Pull)
+					cls.clientMutex.Lock()
+					cls.client = real
+					cls.clientMutex.Unlock()
+					dead.Close()
+					time.Sleep(cls.requestTimeout + 5*c19Pull) // a pull hanging on the dead client runs into its timeout, the next ones succeed
+					return
+				}
 				wg := &sync.WaitGroup{}
 				wg.Add(1)
 				cls.CloseServer(wg)
